@@ -187,6 +187,8 @@ func genCLI(t *rapid.T, cmds []string) cliCase {
 				i := rapid.IntRange(0, len(c.Split.Ranges)-1).Draw(t, "which")
 				c.Split.Ranges = append(c.Split.Ranges[:i:i], c.Split.Ranges[i+1:]...)
 			}
+		case 3, 4:
+			c.Split.Ranges = addBackwards(t, c.Split.Ranges, l)
 		}
 	case "extract", "extract-ref":
 		bound := l
